@@ -9,6 +9,11 @@ Rules (float/double x 2-D/3-D instantiations)
   X3  extent margins in exact arithmetic: with origin = res (floor(l/res) - 1/2) and N = ceil(u/res) - floor(l/res) + 1 the real index of
       the extent's upper bound stays at least a positive margin below N and the lower bound's index is >= 0, for the interval form and
       for the symmetric maximal-range form (whose interval must be [-R, R])
+  X5  the first cell is rounded once: the floor argument that defines the origin and the one inside the cell count are the same
+      floating-point expression (otherwise they can differ by one at lower bounds that are exact multiples of the resolution)
+  X4  object identity: a data member of pointer type (or an array of pointers) that a constructor points INTO another data member of the
+      same object (`.data()`, `&member[i]`) makes the compiler-generated copy operations wrong - the copy's pointers still address the
+      source object's storage; reported unless the class declares its own copy constructor AND copy assignment (or deletes them)
 Not decided (stated prominently): what floor/ceil/truncation do in floating point exactly at the bounds and on cell borders, and the
 half-resolution distance claim in float - the heart of the property; no sound static bound in reach."""
 import sympy as sp
@@ -102,6 +107,7 @@ def run(fx, R, tier):
     R.floor('X1', 8)
     for cq in classes:
         check_class(fx, R, cq)
+        check_self_pointers(fx, R, cq)
 
 
 def check_class(fx, R, cq):
@@ -128,9 +134,30 @@ def check_class(fx, R, cq):
             if v_ is not None:
                 env[s_[1]] = v_
     inits = {i.get('field'): deep_unwrap(sx(i['e'])) for i in g['inits'] if i.get('field')}
+    for fld_, e_ in inits.items():
+        if fld_ and ('this.' + fld_) not in env:
+            v_ = tosym(e_, env)
+            if v_ is not None:
+                env['this.' + fld_] = v_          # members initialised from the arguments (e.g. a stored reciprocal of the resolution)
     R.form(inits.get('cellResolution_') == 'cellResolution', 'X1', cname + ':resolution', 'cellResolution_ initialised with %s' % (inits.get('cellResolution_'),), 'stores the resolution', loc, 'E-STATE')
     origin_s = next((s[1][2] for s in st if s[0] == 'expr' and isinstance(s[1], tuple) and s[1][:2] == ('=', 'this.flooredMinimalPositionAlongAxes_')), None)
     count_s = next((s[1][2] for s in st if s[0] == 'expr' and isinstance(s[1], tuple) and s[1][:2] == ('=', 'this.numberOfCellsAlongAxes_')), None)
+    def floor_args(t, acc):
+        if isinstance(t, tuple):
+            if t and t[0] in ('floor', 'Eigen::floor', 'std::floor') and len(t) == 2:
+                acc.append(t[1])
+            for x_ in t:
+                floor_args(x_, acc)
+        return acc
+    fo, fcnt = floor_args(origin_s, []), floor_args(count_s, [])
+    lower_floor = {str(a_) for a_ in fo + fcnt if 'lower' in str(a_)}
+    if len(lower_floor) > 1:
+        R.violated('X5', 'GridIndexMapping:first-cell:two-roundings', 'the first cell is obtained from floor(%s) for the origin and from floor(%s) for the cell count: the two arguments are the same real number but '
+                   'different floating-point expressions (a product with a rounded reciprocal is not the quotient), so for lower bounds that are exact multiples of the resolution one floor can come out one cell '
+                   'lower than the other - the table and the index map are shifted by a cell against the count and the last cell no longer covers the upper bound [%s]' % (
+                       sorted(lower_floor)[0], sorted(lower_floor)[1], cname), loc, 'E-INT')
+    elif fo and fcnt:
+        R.holds('X5', cname + ':first-cell:one-rounding', 'origin and cell count floor the same floating-point expression of the lower bound', loc, 'E-INT')
     origin = tosym(origin_s, env) if origin_s is not None else None
     count = tosym(count_s, env) if count_s is not None else None
     if origin is None or count is None:
@@ -323,3 +350,53 @@ def check_class(fx, R, cq):
             'the maximal-range constructor builds the grid on [%s, %s]; for the extent [-R, R] the upper bound then has real index N - (%s), whose infimum over the ceil slack is %s: when R is an exact '
             'half-multiple of the resolution the point +R gets index N (one past the last cell) [%s]' % (lo_e, hi_e, mg[0], dup[0], cname),
             'extent [-R, R]: upper margin >= %s cells, lower index >= %s [%s]' % (dup[0], dlo[0], cname), fx.rel(sc['loc']), 'E-ALG')
+
+
+def check_self_pointers(fx, R, cq):
+    rec = fx.records.get(cq)
+    cname = short_fn(cq)
+    if not rec:
+        return
+    ptr_fields = [f_['name'] for f_ in rec['fields'] if '*' in f_['t']['s'] and 'function' not in f_['t']['s']]
+    if not ptr_fields:
+        R.holds('X4', cname + ':self-pointers', 'no data member of pointer type: the compiler-generated copy is a deep copy of the tables', None, 'E-STATE')
+        return
+    own = [f_['name'] for f_ in rec['fields'] if f_['name'] not in ptr_fields]
+    hits = []
+    for mth in rec['methods']:
+        for g in fx.fn(mth['q']):
+            if g.get('body') is None and not g.get('inits'):
+                continue
+            nodes = list(walk(g['body'])) if g.get('body') is not None else []
+            for i_ in g.get('inits', []):
+                if i_.get('e') is not None:
+                    nodes += list(walk(i_['e']))
+            aliases = {}
+            for x in nodes:
+                if x.get('k') == 'Decl':
+                    for v_ in x['vars']:
+                        if (v_.get('t') or {}).get('ref') and v_.get('init') is not None:
+                            it_ = pp(v_['init'])
+                            for o_ in own:
+                                if ('this.' + o_) in it_:
+                                    aliases[v_['name']] = o_
+            for x in nodes:
+                if x.get('k') in ('Bin', 'Op') and x.get('op') == '=':
+                    l_, r_ = (x.get('l'), x.get('r')) if x['k'] == 'Bin' else (x['args'][0], x['args'][1]) if len(x.get('args', [])) == 2 else (None, None)
+                    if l_ is None:
+                        continue
+                    lt, rt = pp(l_), pp(r_)
+                    into_own = any(('this.' + o_) in rt for o_ in own) or any(rt.startswith(a_ + '.') or ('&' + a_) in rt or ('(' + a_ + '.') in rt for a_ in aliases)
+                    if any(('this.' + p_) in lt for p_ in ptr_fields) and into_own and ('.data()' in rt or rt.startswith('(&') or '&' in rt):
+                        hits.append((g['name'], lt, rt, x.get('loc')))
+    if not hits:
+        R.undecided('X4', cname + ':self-pointers', 'pointer member(s) %s; what they point to is not recognised' % ptr_fields)
+        return
+    copies = [m_ for m_ in rec['methods'] if (m_.get('copyctor') or (m_['name'] == 'operator=' and cq.split('<')[0].split('::')[-1] in m_.get('sig', '') and '&&' not in m_.get('sig', '')))]
+    implicit = [m_ for m_ in copies if m_.get('implicit')]
+    if implicit or len(copies) < 2:
+        R.violated('X4', 'GridIndexMapping:self-pointers', 'the member %s is pointed into the object\'s own member (`%s = %s` in %s), and the class relies on the compiler-generated copy operations: a copy keeps '
+                   'addressing the SOURCE object\'s table, so once the source is destroyed or reassigned the copy reads freed or foreign memory through it (centres no longer belong to the copy\'s grid) [%s]' % (
+                       ptr_fields[0], hits[0][1], hits[0][2], hits[0][0], cname), fx.rel(hits[0][3]) if hits[0][3] else None, 'E-STATE')
+    else:
+        R.undecided('X4', cname + ':self-pointers', 'pointer member(s) %s into own storage with user-declared copy operations: whether they re-seat the pointers is not decided' % ptr_fields)
